@@ -197,7 +197,18 @@ func runProducerScenario(t testing.TB, rec *vRec, sc *prodScenario) {
 		cfgv.Version = "0.11.0.0"
 	}
 	if cfgv.ReadTimeout == 0 {
-		cfgv.ReadTimeout = 250
+		// a short read timeout only where the script needs the client to time out (a request that is
+		// never answered); everywhere else it is long, so that a held request on a slow machine can
+		// never turn into an unscripted connection-level failure
+		cfgv.ReadTimeout = 8000
+		for _, p := range sc.Plans {
+			if p != nil && strings.HasPrefix(p.Conn, "silence") {
+				cfgv.ReadTimeout = 250
+			}
+		}
+		if cfgv.InitPidFault == "silence" {
+			cfgv.ReadTimeout = 250
+		}
 	}
 	if cfgv.Partitioner == "" {
 		cfgv.Partitioner = "manual"
